@@ -4,6 +4,7 @@ import drv_udp
 
 LEVEL = "model_checking"
 OUT = ["reply", "none", "late", "two", "icmp", "lost", "gone"]
+OUT_X = ["empty"]          # rarer outcomes, combined with the others in a sample of scripts
 
 
 def sig(tr, v):
@@ -32,6 +33,10 @@ def run(ctx):
             for timeout in (2, 6):
                 T.append(drv_udp.run_virtual(script, r, timeout, payload=bytes(rnd.randrange(256) for _ in range(rnd.choice([1, 40, 1400]))) if rnd.random() < 0.2 else b"REQUEST-\x00\xff",
                                              reply_tail=rnd.choice(tails), v6=rnd.random() < 0.25))      # a quarter of the scripts against an IPv6 agent
+    for r in (1, 2, 3):
+        for script in itertools.product(OUT + OUT_X, repeat=r):
+            if "empty" in script:
+                T.append(drv_udp.run_virtual(script, r, 2))
     # real sockets on the loopback interface
     lb = [("reply",), ("none", "reply"), ("none", "none"), ("icmp",), ("none", "none", "reply"), ("two",), ("late", "reply")]
     if not q:
@@ -60,7 +65,7 @@ def run(ctx):
     ctx.evaluations += len(T)
     verdicts = ctx.validate("Trace_Transport", T, chunk=4000)
     ctx.judge(T, verdicts, signature=sig, nontrivial=lambda tr, v: json.dumps([tr["scenario"]["script"], tr["scenario"]["timeout"], tr["scenario"]["mode"]]))
-    ctx.rule = ("every outcome script over {reply, none, late, two, icmp, lost, gone (connection_lost(None))} of length = retries in 1..4 (2800 scripts; 1..5 = 19607 in the thorough tier) x timeout in {2, 6} on the virtual-time "
+    ctx.rule = ("every outcome script over {reply, none, late, two, icmp, lost, gone (connection_lost(None))} (and zero-length replies in scripts up to length 3) of length = retries in 1..4 (2800 scripts; 1..5 = 19607 in the thorough tier) x timeout in {2, 6} on the virtual-time "
                 "loop with recording transports (replies ending in 00 / NULL / endOfMibView octets included), IPv4 and IPv6 peers, plus %d scripts on real loopback sockets "
                 "(scripted responder, closed port for ICMP, /proc/self/fd balance); distinct = distinct (script, timeout, mode)") % len(lb)
     ctx.exhaustive = True
